@@ -158,7 +158,7 @@ func pxOpProg(args []string) (string, bool) {
 	case err != nil:
 		out = "err"
 	default:
-		out = "ok " + pxRDump(f, true)
+		out = "ok " + pxRDumpDeep(f, main)
 	}
 	if len(args) >= 2 && args[1] != "-" {
 		return out, out == "ok "+args[1]
@@ -394,9 +394,7 @@ func pxJSONExpected(f *pxFile, out map[string]interface{}) bool {
 	pxPut(file, "t", types)
 	for _, i := range f.Includes {
 		if i.File != nil {
-			sub := *i.File
-			sub.Name = i.Path
-			if !pxJSONExpected(&sub, out) {
+			if !pxJSONExpected(i.File, out) {
 				return false
 			}
 		}
@@ -404,7 +402,36 @@ func pxJSONExpected(f *pxFile, out map[string]interface{}) bool {
 	return true
 }
 
+// pxSameBase: two different files of the program share a base name (the JSON descriptor is keyed
+// by base name, it cannot describe such a program: not compared).
+func pxSameBase(m *pxFile) bool {
+	rels := map[string]string{}
+	dup := false
+	var walk func(f *pxFile)
+	walk = func(f *pxFile) {
+		b := pxIncludeName(f.Name)
+		if r, ok := rels[b]; ok {
+			if r != f.Name {
+				dup = true
+			}
+			return
+		}
+		rels[b] = f.Name
+		for _, i := range f.Includes {
+			if i.File != nil {
+				walk(i.File)
+			}
+		}
+	}
+	walk(m)
+	return dup
+}
+
 func pxCheckJSON(m *pxFile, real *parser.Frugal, line string) {
+	if pxSameBase(m) {
+		Stat("json-skipped-same-basename")
+		return
+	}
 	want := map[string]interface{}{}
 	if !pxJSONExpected(m, want) {
 		Stat("json-skipped-ambiguous")
@@ -538,6 +565,22 @@ func pxReplayKnown() {
 			Stat("known-finding-no-longer-fails:" + k.id)
 		}
 	}
+	// a two-file witness: main.frugal includes common.frugal
+	{
+		files := map[string]string{
+			"main.frugal":   pxReadKnown("c10_typedef_hop/main.frugal", "include \"common.frugal\"\ntypedef common.Bytes alpha\n"),
+			"common.frugal": pxReadKnown("c10_typedef_hop/common.frugal", "struct alpha {}\ntypedef alpha Bytes\n"),
+		}
+		f, err, oc := pxParseProgram(files, "main.frugal")
+		switch {
+		case oc != "":
+			OracleFail("known-finding witness panics or hangs: include-typedef-hop-circular", map[string]interface{}{"outcome": oc})
+		case err != nil || len(f.Typedefs) != 1:
+			Known("include-typedef-hop-circular", "valid IDL rejected as `Circular typedef`: main.frugal `typedef common.Bytes alpha` with common.frugal `struct alpha {}; typedef alpha Bytes` - validateTypedefs follows the included file's typedef (Bytes -> alpha) in the INCLUDING file, where `alpha` is the typedef it started from")
+		default:
+			Stat("known-finding-no-longer-fails:include-typedef-hop-circular")
+		}
+	}
 	var failing []string
 	total := 0
 	for _, sec := range strings.Split(pxReadKnown("c10_thrift_gaps.frugal", pxGapsEmbedded), "### ") {
@@ -597,7 +640,7 @@ func pxClassCase(r *Rng, g *pxGen) {
 		OracleFail("finding-class input panics or hangs", map[string]interface{}{"op": "c10text", "line": "c10text " + pxHex(text), "outcome": oc})
 	case err != nil:
 		Stat("class:" + id + ":rejected")
-	case pxRDump(f, true) != pxDumpFile(m, true):
+	case pxRDumpDeep(f, "main.frugal") != pxDumpFile(m, true):
 		Stat("class:" + id + ":misparsed")
 	default:
 		Stat("class:" + id + ":round-trips")
@@ -668,7 +711,7 @@ func pxProgramCase(r *Rng, g *pxGen, thorough bool) {
 		Case(line, "err")
 		OracleFail("valid IDL rejected: "+pxErrClass(err), map[string]interface{}{"op": "c10prog", "line": line, "err": pxClip(err.Error()), "text": pxClip(files[m.Name])})
 	default:
-		got := pxRDump(f, true)
+		got := pxRDumpDeep(f, m.Name)
 		Case(line, "ok "+got)
 		if got != want {
 			wa, ga := pxAround(want, got)
